@@ -66,7 +66,80 @@ type EngineRunner struct {
 	shadow  *shadowFS
 	iter    *kv.Iterator
 	mergeSeen []uint32
+	// first data file written entirely under the current DataFileSize (files that were
+	// active in an earlier session may have been filled under another limit)
+	sessionFirstFile uint32
 }
+
+// checkFileLimit (C17): a data file exceeds DataFileSize only when it holds a single record
+// (plus, for a batch, its batch-finished record).
+func (r *EngineRunner) checkFileLimit() {
+	if r.db == nil {
+		return
+	}
+	saved := fio.VerifEvent
+	fio.VerifEvent = nil
+	defer func() { fio.VerifEvent = saved }()
+	active, older := r.db.VerifFileIDs()
+	ids := append(older, active)
+	for _, id := range ids {
+		if id <= r.sessionFirstFile && r.sessionFirstFile != 0 {
+			continue
+		}
+		if id == r.sessionFirstFile && r.sessionFirstFile == 0 && r.ref.opens > 1 {
+			continue
+		}
+		path := datafile.GetFileName(r.dir(), id, datafile.DataFileSuffix)
+		logical := int64(-1)
+		if id == active {
+			logical = r.db.VerifActiveSize()
+		}
+		st, err := os.Stat(path)
+		if err != nil {
+			continue
+		}
+		size := st.Size()
+		if logical >= 0 {
+			size = logical
+		} else if r.opts.FileIOType == fio.MemoryMap {
+			continue // physical size of a mapped older file is the mapping size
+		}
+		if size <= r.opts.DataFileSize {
+			continue
+		}
+		// count the records of the file (a copy, read with standard I/O)
+		tmp, err := os.MkdirTemp(r.Root, "lim")
+		if err != nil {
+			continue
+		}
+		data, _ := os.ReadFile(path)
+		if int64(len(data)) > size {
+			data = data[:size]
+		}
+		_ = os.WriteFile(datafile.GetFileName(tmp, id, datafile.DataFileSuffix), data, 0644)
+		df, err := datafile.OpenFile(tmp, id, datafile.DataFileSuffix, fio.StandardFIO)
+		n := 0
+		if err == nil {
+			rd := df.NewReader()
+			for {
+				rec, _, err := rd.NextLogRecord()
+				if err != nil {
+					break
+				}
+				if rec.Type != datafile.LogRecordBatchFinished {
+					n++
+				}
+			}
+			_ = df.Close()
+		}
+		_ = os.RemoveAll(tmp)
+		if n > 1 {
+			r.fail("C17", "data file %d has %d bytes > DataFileSize %d and holds %d records", id, size, r.opts.DataFileSize, n)
+		}
+	}
+}
+
+type _unused struct{}
 
 func (r *EngineRunner) fail(prop string, format string, a ...interface{}) {
 	r.Oracle = append(r.Oracle, fmt.Sprintf("X %s scenario=%s %s", prop, r.scen, fmt.Sprintf(format, a...)))
@@ -264,6 +337,10 @@ func (r *EngineRunner) Exec(f []string) (res string) {
 			return "err " + EngErr(err) + r.takeEvents(false)
 		}
 		r.db = db
+		r.sessionFirstFile, _ = db.VerifFileIDs()
+		if r.ref.pending == "" {
+			r.sessionFirstFile = 0
+		}
 		r.ref.afterOpen(r)
 		return "ok" + r.takeEvents(false)
 	case "close":
@@ -418,6 +495,7 @@ func (r *EngineRunner) Exec(f []string) (res string) {
 		}
 		return fmt.Sprintf("%d %d %d %d", p.Fid, p.BlockID, p.Offset, p.Size)
 	case "files":
+		r.checkFileLimit()
 		return r.listing()
 	}
 	if strings.HasPrefix(op, "it") {
